@@ -363,7 +363,8 @@ def lz_alternatives(shape_members, mutated, base):
 
 
 # --------------------------------------------------------------------------------------------- the check
-SHAPES_QUICK = [("xz", 1, 1), ("xz", 2, 1), ("xz", 0, 1), ("xz", 1, 2), ("lzip", 1, 1), ("lzip", 2, 1), ("lzip_mt", 1, 1), ("lzip_mt", 2, 1)]
+SHAPES_QUICK = [("xz", 2, 1), ("xz", 0, 1), ("xz", 1, 2), ("lzip", 1, 1), ("lzip", 2, 1), ("lzip_mt", 2, 1)]
+SHAPES_MORE = [("xz", 1, 1), ("lzip_mt", 1, 1), ("xz", 2, 2)]
 
 
 def tlc_shape(fmt, nu, ns, variants, strict):
@@ -414,11 +415,11 @@ def run(tier, replay=None):
     variants = asbuilt()
     shapes = list(SHAPES_QUICK)
     if not quick:
-        shapes += [("xz", 2, 2)]
+        shapes += SHAPES_MORE
     checks = ["crc32", "crc64", "sha256"]
 
     # ---------------- stage 1: TLC, intended design (RejectsDamage) and as-built export
-    with ThreadPoolExecutor(max_workers=5) as ex:
+    with ThreadPoolExecutor(max_workers=8) as ex:
         fs = {sh: (ex.submit(tlc_shape, *sh, variants, True), ex.submit(tlc_shape, *sh, variants, False)) for sh in shapes}
         tl = {sh: (a.result(), b.result()) for sh, (a, b) in fs.items()}
     all_cases = {}
@@ -481,9 +482,19 @@ def run(tier, replay=None):
             res, out = "err", []      # panic / abort are judged by C06; here they are "not a success"
             ctx.add("cases_panicked_or_aborted")
         ev_by_shape[sh].append(({"t": case["t"], "i": case["i"], "c": case["c"], "res": res, "out": out}, case, b, r))
-    with ThreadPoolExecutor(max_workers=5) as ex:
-        futs = {sh: ex.submit(trace_shape, *sh, variants, [e for (e, _, _, _) in evs]) for sh, evs in ev_by_shape.items()}
+    # binding demonstration: two synthetic observations per shape that the trace spec must judge intolerable (a success with
+    # the empty result on the intact file, a success with an unknown unit) -- otherwise the judge does not discriminate
+    DEMO = [{"t": "none", "i": 0, "c": "none", "res": "ok", "out": [99]}, {"t": "prefix", "i": 0, "c": "text9", "res": "ok", "out": []}]
+    with ThreadPoolExecutor(max_workers=8) as ex:
+        futs = {sh: ex.submit(trace_shape, *sh, variants, [e for (e, _, _, _) in evs] + DEMO) for sh, evs in ev_by_shape.items()}
         tr = {sh: f.result() for sh, f in futs.items()}
+    for sh, (ok, r, verdicts) in tr.items():
+        n = len(ev_by_shape[sh])
+        for k in (n + 1, n + 2):
+            if k not in verdicts or verdicts[k]["tol"]:
+                raise ToolError(f"Trace_Corruption {sh}: synthetic intolerable observation {k - n} was not rejected")
+            del verdicts[k]
+    ctx.add("binding_demonstrations_rejected", 2 * len(tr))
     classes = set()
     n_judged = 0
     for sh, (ok, r, verdicts) in tr.items():
